@@ -451,7 +451,9 @@ void Sim::execute() {
     // phase 2: healed suffix (bounded liveness)
     if (plan.knobs.final_heal && !livelock) {
         if (!healed) { Step h; h.kind = SK::Heal; h.id = -1; exec_step(h, nullptr); }
-        ns_t horizon = heal_t + plan.knobs.healed_suffix + w.stall_total;
+        // the reply-age check uses the wall clock: a backward clock jump postpones it by the size of the jump
+        ns_t back = 0; for (auto& m : marks) if (m.kind == MarkKind::clock_jump && m.arg < 0) back += -m.arg;
+        ns_t horizon = heal_t + plan.knobs.healed_suffix + w.stall_total + back;
         while (used < budget && !livelock) {
             if (!step_world(horizon)) break;
         }
